@@ -1182,7 +1182,7 @@ def httpParse (pinned : Bool) (fs : Fields) (p : Obj) (f : List (Str × List Str
 error), then the target is looked at: `reflect.TypeOf(v).Kind() != reflect.Ptr` ⇒ `errValueNotSettable`, a document that is
 an object needs `Deref(type)` to be a struct (else `errTypeMismatch`), `ValidatePtr` refuses a nil pointer.  A `**T` target is
 allocated and filled.  At the pinned commit `reflect.TypeOf(nil).Kind()` panics for an untyped nil target
-(`Props.pinned_nil_target_panics`; fixes/C08-nil-target.patch).  A panic of the caller's reader is the caller's: it propagates. -/
+(`Props.pinned_nil_target_panics`; fixes/not-applied/C08-nil-target.patch).  A panic of the caller's reader is the caller's: it propagates. -/
 
 inductive Target where
   | ptr            -- *T
